@@ -228,7 +228,7 @@ def split_statements(src, m, lo, hi):
             break
         start = i
         j = i
-        blocklike = re.match(r"(if|while|for|loop|match|unsafe|\{)\b?", m[i:hi]) is not None
+        blocklike = re.match(r"((if|while|for|loop|match|unsafe)\b|\{)", m[i:hi]) is not None
         while j < hi:
             c = m[j]
             if c in "([":
